@@ -725,13 +725,13 @@ Definition synbhrs_extend (m : synbhrs_t) (key : val) (l : list val) : synbhrs_t
    list objects): [id_senses_map] is therefore modelled as a map from the id to the key
    of [synbhrs] whose list it aliases, and an append through it extends that list. *)
 Definition _collect_frames (lexicon : val) : result (list synbhr) :=
-  (* synbhrs = {frame['subcategorizationFrame']: {'id': frame['id'],
+  (* synbhrs = {frame['subcategorizationFrame']: {'id': frame.get('id', ''),
                    'subcategorizationFrame': frame['subcategorizationFrame'],
                    'senses': frame.get('senses', [])}
                 for frame in lexicon.get('frames', [])} *)
   synbhrs <- foldM (fun (m : synbhrs_t) frame =>
                       fr <- vreq frame "subcategorizationFrame" ;;
-                      id <- vreq frame "id" ;;
+                      let id := vget_def frame "id" (vs "") in
                       Ok (dict_set m fr {| sb_id := Some id; sb_frame := fr;
                                            sb_senses := vlistk frame "senses" |}))
                    (vlistk lexicon "frames") [] ;;
